@@ -13,7 +13,9 @@ EXTENDS Naturals, Integers, Sequences, FiniteSets, TLC
 
 CONSTANTS TW, PW,          \* bit widths (scaled for TLC)
           NDev,            \* number of SubDevices in the group
-          WideSum          \* TRUE: the sum t + d is formed in a wider type (after the "fix:" commit)
+          WideSum,         \* TRUE: the sum t + d is formed in a wider type (after the "fix:" commit)
+          Sync1Checked     \* TRUE (repaired): a SYNC1 period must fit PW bits like SYNC0's and is written as PW bits;
+                           \* FALSE: any period is taken, written in 2 * PW bits over the registers that follow
 
 Pow2(n) == 2 ^ n
 TMax == Pow2(TW) - 1
@@ -58,9 +60,11 @@ DsInit ==
     /\ d \in 0..(PMax + 1)
     /\ p \in 1..(PMax + 1)
     /\ s \in 0..PMax
-    /\ devs \in [1..NDev -> [support : Supports, mode : Modes]]
+    /\ devs \in [1..NDev -> {[support |-> su, mode |-> m, sync1 |-> s1] :
+                                su \in Supports, m \in Modes, s1 \in {0, 1, PMax, PMax + 1}}]
+    /\ \A i \in 1..NDev : (devs[i].mode = "Sync01") = (devs[i].sync1 # 0)
     /\ hasRef \in BOOLEAN
-    /\ written = [i \in 1..NDev |-> [start |-> -1, cycle0 |-> -1, flags |-> -1]]
+    /\ written = [i \in 1..NDev |-> [start |-> -1, cycle0 |-> -1, cycle1 |-> -1, spill |-> 0, flags |-> -1]]
     /\ result = "none"
     /\ phase = "ready"
 
@@ -70,11 +74,19 @@ Configure ==
     /\ IF ~hasRef THEN result' = "noreference" /\ UNCHANGED written
        ELSE LET r == SetupStart(t, d, p) IN
             IF r.res # "ok" THEN result' = r.res /\ UNCHANGED written
-            ELSE /\ result' = "ok"
-                 /\ written' = [i \in 1..NDev |->
-                                  IF Selected(devs[i])
-                                  THEN [start |-> r.start, cycle0 |-> p, flags |-> Flags(devs[i])]
-                                  ELSE written[i]]
+            ELSE \* the devices are configured one after the other; the first SYNC1 period that does not fit ends it
+                 LET bad == {i \in 1..NDev : Sync1Checked /\ Selected(devs[i]) /\ devs[i].sync1 > PMax}
+                     stop == IF bad = {} THEN NDev + 1 ELSE CHOOSE i \in bad : \A j \in bad : i <= j
+                 IN /\ result' = IF bad = {} THEN "ok" ELSE "range"
+                    /\ written' = [i \in 1..NDev |->
+                                     IF Selected(devs[i]) /\ i < stop
+                                     THEN [start |-> r.start, cycle0 |-> p,
+                                           cycle1 |-> IF devs[i].mode = "Sync01" THEN devs[i].sync1 % Pow2(PW) ELSE -1,
+                                           spill |-> IF devs[i].mode = "Sync01" /\ ~Sync1Checked THEN 1 ELSE 0,
+                                           flags |-> Flags(devs[i])]
+                                     ELSE IF Selected(devs[i]) /\ i = stop
+                                     THEN [written[i] EXCEPT !.start = r.start, !.cycle0 = p]     \* given up half way
+                                     ELSE written[i]]
     /\ UNCHANGED <<t, d, p, s, devs, hasRef>>
 
 DsNext == Configure
@@ -93,14 +105,24 @@ StartIsMultipleInInterval ==
             /\ written[i].start <= t + d
             /\ written[i].start > t + d - p
             /\ written[i].cycle0 = p
+            /\ (devs[i].mode = "Sync01" => written[i].cycle1 = devs[i].sync1)
             /\ written[i].flags = Flags(devs[i])
 
+Sync1TooLong == \E i \in 1..NDev : Selected(devs[i]) /\ devs[i].sync1 > PMax
+
 RangeRejected ==
-    phase = "done" /\ hasRef /\ (p > PMax \/ d > PMax) => result = "range"
+    phase = "done" /\ hasRef /\ (p > PMax \/ d > PMax \/ Sync1TooLong) => result = "range"
+
+\* a device whose sync signals were activated has all its times
+NoHalfConfiguredActive ==
+    phase = "done" => \A i \in 1..NDev : written[i].flags # -1 => written[i].start # -1 /\ written[i].cycle0 = p
+
+\* nothing but the DC sync registers is written
+NoSpill == \A i \in 1..NDev : written[i].spill = 0
 
 \* nothing else is rejected as long as the start time is representable
 OnlyRangeRejected ==
-    phase = "done" /\ hasRef /\ p <= PMax /\ d <= PMax /\ WantedStart(t, d, p) <= TMax => result = "ok"
+    phase = "done" /\ hasRef /\ p <= PMax /\ d <= PMax /\ ~Sync1TooLong /\ WantedStart(t, d, p) <= TMax => result = "ok"
 
 NoReferenceRejected == phase = "done" /\ ~hasRef => result = "noreference"
 
